@@ -33,8 +33,88 @@ def observe(ctx, h):
     return None
 
 
+def identity_not_uuid(ctx, g, rng, n):
+    """'whose referent is THAT block': referents are told apart by identity.  Free-standing modules (no IR, hence no UUID table) hold
+    blocks and proxies that share a UUID with another one, and nodes whose `uuid` attribute is reassigned after symbols refer to
+    them; symbols are renamed, re-targeted, moved between the modules, blocks are moved.  After every step both lookups are compared
+    with a scan of module.symbols, for every module x name and every block."""
+    import uuid as uuidlib
+    from common import exc_name
+    names = ["", "a", "b", "é"]
+    for rd in range(n):
+        m1, m2 = g.Module(name="m1"), g.Module(name="m2")
+        mods = [m1, m2]
+        u = uuidlib.UUID(int=rng.getrandbits(128))
+        sec = g.Section(name="s", module=m1)
+        bi = g.ByteInterval(size=32, section=sec)
+        sec2 = g.Section(name="s", module=m2)
+        bi2 = g.ByteInterval(size=32, section=sec2)
+        blocks = [g.ProxyBlock(uuid=u, module=m1), g.ProxyBlock(uuid=u, module=m1), g.ProxyBlock(module=m1),
+                  g.DataBlock(size=1, offset=0, uuid=uuidlib.UUID(int=0), byte_interval=bi), g.DataBlock(size=1, offset=4, uuid=uuidlib.UUID(int=0), byte_interval=bi),
+                  g.CodeBlock(size=1, offset=8, uuid=u, byte_interval=bi), g.CodeBlock(size=1, offset=9, byte_interval=bi2)]
+        syms = [g.Symbol(rng.choice(names), module=rng.choice(mods)) for _ in range(5)]
+        trail = []
+
+        def check():
+            for m in mods:
+                for nm in names:
+                    got = list(m.symbols_named(nm))
+                    want = [y for y in m.symbols if y.name == nm]
+                    if sorted(map(id, got)) != sorted(map(id, want)):
+                        return "%s.symbols_named(%r) yields %d symbols, a scan of the module %d" % (m.name, nm, len(got), len(want))
+            for k, b in enumerate(blocks):
+                got = list(b.references)
+                want = [] if b.module is None else [y for y in b.module.symbols if y.referent is b]
+                ctx.count("identity_scenario_reference_lookups")
+                if sorted(map(id, got)) != sorted(map(id, want)):
+                    return "block %d (%s, %s).references yields %s, a scan of its module's symbols %s" % (
+                        k, type(b).__name__, "UUID shared with another node" if sum(1 for x in blocks if x.uuid == b.uuid) > 1 else "own UUID",
+                        sorted(syms.index(y) for y in got), sorted(syms.index(y) for y in want))
+            return None
+        for step in range(14):
+            r = rng.random()
+            try:
+                if r < 0.4:
+                    y, b = rng.choice(syms), rng.choice(blocks)
+                    y.referent = b
+                    trail.append("sym%d.referent = block %d" % (syms.index(y), blocks.index(b)))
+                elif r < 0.5:
+                    y = rng.choice(syms)
+                    y.value = rng.choice([0, 7])
+                    trail.append("sym%d.value = int" % syms.index(y))
+                elif r < 0.6:
+                    y = rng.choice(syms)
+                    y.name = rng.choice(names)
+                    trail.append("sym%d renamed" % syms.index(y))
+                elif r < 0.72:
+                    y = rng.choice(syms)
+                    y.module = rng.choice(mods + [None])
+                    trail.append("sym%d moved" % syms.index(y))
+                elif r < 0.84:
+                    b = rng.choice(blocks)
+                    if isinstance(b, g.ProxyBlock):
+                        b.module = rng.choice(mods + [None])
+                    else:
+                        b.byte_interval = rng.choice([bi, bi2, None])
+                    trail.append("block %d moved" % blocks.index(b))
+                else:
+                    b = rng.choice(blocks)
+                    b.uuid = rng.choice([u, uuidlib.UUID(int=rng.getrandbits(128)), uuidlib.UUID(int=0)])
+                    trail.append("block %d.uuid reassigned" % blocks.index(b))
+                    ctx.count("identity_scenario_uuid_reassigned")
+            except Exception as e:  # noqa: BLE001
+                ctx.add("oracle", "symbol-lookup:identity", "after %s the step raised %s" % (trail[-3:], exc_name(g, e)), {"trail": trail})
+                break
+            bad = check()
+            if bad:
+                ctx.add("oracle", "symbol-lookup:identity", "free-standing modules, after [%s]: %s" % ("; ".join(trail[-4:]), bad), {"trail": trail})
+                break
+        ctx.case("identity-scenario:%d:%s" % (rd, trail), True)
+
+
 def run(ctx):
     g = gtirb_from_repo.load()
+    identity_not_uuid(ctx, g, ctx.rng, 40 if ctx.quick else 800)
     rng = ctx.rng
     nh, ln = (80, 30) if ctx.quick else (2000, 60)
     hists = []
